@@ -725,6 +725,18 @@ func (fc *FuncCtx) execFunc(fr *Frame, st0 *State) []retInfo {
 				in[s] = append(in[s], edge{b, st})
 				terminated = true
 			case *ssa.Return:
+				// a return from inside a loop leaves the loop: exit hints apply
+				if fn == fc.fn {
+					for h, body := range ci.loopExt {
+						if body[b] {
+							for _, u := range fc.spec.LoopUse[fc.loopOrd[h]] {
+								if u.Where == "exit" {
+									fc.applyUse(st, fc.loopEnv(fr, h, st, 0), u)
+								}
+							}
+						}
+					}
+				}
 				var rs []Val
 				for _, r := range t.Results {
 					rs = append(rs, fc.valOf(fr, r))
